@@ -88,6 +88,9 @@ def pool_key(key):
     k = re.sub(r"/(overflow:[A-Za-z]+)\(.*\)$", r"/\1", k)
     # `c[i]` and `c[a..b]` on the same container are the same kind of obligation (position within the container's length)
     k = re.sub(r"/slice-index\(", "/index(", k)
+    # a site inside a closure belongs to the function the closure is written in; a captured `self.f` is the same place as `self.f`
+    k = re.sub(r"::\{closure#\d+\}", "", k)
+    k = re.sub(r"\barg(\.\d+)+\.", "arg.", k)
     return k
 
 
